@@ -719,7 +719,15 @@ impl FileStateMachine {
         // replay-of-the-same-truncated-entry on every subsequent startup.
         #[cfg(feature = "verif-hooks")]
         crate::verif_exports::crash_point("sm:replay:before_clear");
-        self.clear_wal_async().await?;
+        // The replayed entries only live in memory so far. Dropping the WAL before they are in
+        // a checkpoint would lose them for good at the next crash (the checkpoint on disk is
+        // older and later WAL records start after them): checkpoint first, which persists data
+        // and applied index and then clears the WAL.
+        if replayed_count > 0 {
+            self.checkpoint().await?;
+        } else {
+            self.clear_wal_async().await?;
+        }
         debug!(
             "Cleared WAL after replay ({} operations applied)",
             applied_count
